@@ -4,7 +4,8 @@
 // typing than openCypher as a known difference, and the checks stay inside the common fragment.
 //
 // Schema: node kinds {A,B,C}, edge kinds {R,S,T}; properties name:string ([a-z0-9]*), value:int,
-// score:float, flag:bool, tags:list<string>, opt:string (missing on ~40% of entities).
+// score:float, flag:bool, tags:list<string>, opt:string (missing on ~40% of entities), mix: string | int | bool |
+// missing (only ever compared with string literals by = and <>).
 package cy
 
 import (
@@ -84,6 +85,20 @@ func props(t *rapid.T) map[string]any {
 	p["tags"] = tags
 	if rapid.IntRange(0, 4).Draw(t, "hasopt") < 3 {
 		p["opt"] = rapid.SampledFrom(names).Draw(t, "popt")
+	}
+	// mix: the one key without a fixed type (string / integer / boolean, or missing); queries only compare it with
+	// string literals by = and <>, which DAWGS guards with jsonb_typeof(...) = 'string'
+	switch rapid.IntRange(0, 5).Draw(t, "pmix") {
+	case 0:
+		p["mix"] = "1"
+	case 1:
+		p["mix"] = "a"
+	case 2:
+		p["mix"] = int64(1)
+	case 3:
+		p["mix"] = true
+	case 4:
+		p["mix"] = "true"
 	}
 	return p
 }
@@ -359,7 +374,7 @@ func (g *gen) relPattern(pathCtx bool) string {
 func (g *gen) patternPart(allowPath bool) string {
 	var sb strings.Builder
 	pathVar := ""
-	steps := []int{1, 0, 1, 2, 1, 0, 2, 3}[g.pick("steps", 8)]
+	steps := []int{1, 0, 1, 2, 1, 0, 2, 3, 1, 4}[g.pick("steps", 10)]
 	if allowPath && g.o.AllowPaths && steps > 0 && g.chance("pathvar", 1, 4) {
 		pathVar = g.fresh("p")
 		g.feat("path-var")
@@ -704,6 +719,14 @@ func (g *gen) boolAtom(depth int) string {
 			}
 		}
 		fallthrough
+	case k == 14 && ok:
+		g.feat("cmp-mixed-type-property")
+		lit := "'" + rapid.SampledFrom([]string{"1", "a", "true"}).Draw(g.t, "mixlit") + "'"
+		op := rapid.SampledFrom([]string{"=", "<>"}).Draw(g.t, "mixop")
+		if g.chance("mixrev", 1, 2) {
+			return lit + " " + op + " " + e.Name + ".mix"
+		}
+		return e.Name + ".mix " + op + " " + lit
 	case k == 13 && ok:
 		if e.Type == TNode {
 			g.feat("label-in-labels")
